@@ -14,12 +14,6 @@ def WFSub (s : Sub) : Prop :=
 
 def WF (o : CallOr) : Prop := o.mode ≠ .none ∧ (o.mode ≠ .celt → ∀ s ∈ o.subs, WFSub s)
 
-/-- If the analysis result the call starts from is not valid (and the input is not silent), the
-    per-frame results queried afterwards are not valid either.  (Violations are counted by the
-    harness as `incoherent_valid`.) -/
-def Coherent (c : Cfg) (o : CallOr) : Prop :=
-  (analysisOn c && o.valid0) = false → isSilOf c o = false → ∀ s ∈ o.subs, s.valid = false
-
 /-- State invariant: before the first completed frame the SILK counters are untouched. -/
 def Inv (st : St) : Prop := st.prevMode = .none → st.silk.c0 = 0
 
@@ -183,18 +177,6 @@ theorem frameSilk_zero (mode : Mode) (act : Int) (st : St) (o : Sub)
     simp only [hd]
     exact h3
 
-/-- SILK regime (analysis result not valid, input not silent): a frame is dropped only by SILK. -/
-theorem frameStep_silk_regime (useDtx : Bool) (mode : Mode) (fQ1 : Nat) (tc : Bool) (st : St) (o : Sub)
-    (hv : o.valid = false) (h : (frameStep useDtx false mode fQ1 tc st o).2.1 = true) :
-    (frameSilk mode (activityOf false o.valid o.det) st o).2 = some true ∧
-    (frameStep useDtx false mode fQ1 tc st o).1 = (frameSilk mode (activityOf false o.valid o.det) st o).1 := by
-  unfold frameStep at h ⊢
-  simp only at h ⊢
-  by_cases hz : (frameSilk mode (activityOf false o.valid o.det) st o).2 = some true
-  · simp [hz]
-  · simp only [hz, if_false] at h
-    simp [frameTail, hv] at h
-
 theorem frameStep_prevMode (useDtx isSil : Bool) (mode : Mode) (fQ1 : Nat) (tc : Bool) (st : St) (o : Sub) :
     ((frameSilk mode (activityOf isSil o.valid o.det) st o).2 = some true ∧
       (frameStep useDtx isSil mode fQ1 tc st o).1 = (frameSilk mode (activityOf isSil o.valid o.det) st o).1) ∨
@@ -224,11 +206,11 @@ theorem frameFlags_generalised_last (useDtx isSil : Bool) (mode : Mode) (fQ1 : N
       simp only [frameFlags, List.mem_cons, List.not_mem_nil, or_false, forall_eq] at hall ⊢
       have hg := frameStep_generalised useDtx isSil mode fQ1 (tc && ([] : List Sub).isEmpty) st o hs
       rw [hall] at hg
-      by_cases hc : useDtx = true ∧ (o.valid = true ∨ isSil = true)
+      by_cases hc : useDtx = true
       · rw [if_pos hc, if_pos hc] at hg
         have h1 := decideDtx_true_nb _ _ _ hg.1.symm
         have h2 := (decideDtx_true_iff _ _ _).1 hg.1.symm
-        refine ⟨hc.1, ?_⟩
+        refine ⟨hc, ?_⟩
         rw [hg.2, h1]; exact h2.2.1
       · rw [if_neg hc] at hg; exact absurd hg.1 (by simp)
     · exact ih _ (by rw [frameStep_silkUseDtx]; exact hs) hos (fun d hd => hall d (by simp [hd]))
@@ -236,7 +218,7 @@ theorem frameFlags_generalised_last (useDtx isSil : Bool) (mode : Mode) (fQ1 : N
 /-- SILK regime: if every coded frame is dropped, SILK dropped them all; `prev_mode` is untouched
     and the counters are past `NB_SPEECH_FRAMES_BEFORE_DTX`. -/
 theorem frameFlags_silk_regime (useDtx : Bool) (mode : Mode) (fQ1 : Nat) (tc : Bool) (st : St) (os : List Sub)
-    (hne : os ≠ []) (hv : ∀ s ∈ os, s.valid = false) (hwf : mode ≠ .celt → ∀ s ∈ os, WFSub s)
+    (hne : os ≠ []) (hsd : st.silkUseDtx = true) (hwf : mode ≠ .celt → ∀ s ∈ os, WFSub s)
     (hall : ∀ d ∈ (frameFlags useDtx false mode fQ1 tc st os).2, d = true) :
     let f := (frameFlags useDtx false mode fQ1 tc st os).1
     mode ≠ .celt ∧ st.silk.c0 ≠ 0 ∧ f.prevMode = st.prevMode ∧ f.silkUseDtx = true ∧
@@ -246,7 +228,7 @@ theorem frameFlags_silk_regime (useDtx : Bool) (mode : Mode) (fQ1 : Nat) (tc : B
   | cons o os ih =>
     simp only [frameFlags] at hall ⊢
     have hflag : (frameStep useDtx false mode fQ1 (tc && os.isEmpty) st o).2.1 = true := hall _ (by simp)
-    have hA := frameStep_silk_regime useDtx mode fQ1 (tc && os.isEmpty) st o (hv o (by simp)) hflag
+    have hA := frameStep_silk_charge useDtx false mode fQ1 (tc && os.isEmpty) st o hsd hflag
     have hB := frameSilk_zero mode _ st o (fun hm => hwf hm o (by simp)) hA.1
     have hF := frameSilk_fields mode (activityOf false o.valid o.det) st o
     by_cases hos : os = []
@@ -255,7 +237,7 @@ theorem frameFlags_silk_regime (useDtx : Bool) (mode : Mode) (fQ1 : Nat) (tc : B
       rw [hA.2]
       exact ⟨hB.1, hB.2.2.1, hF.2.1, by rw [hF.2.2.1]; exact hB.2.1, hB.2.2.2.1, hB.2.2.2.2⟩
     · have := ih (frameStep useDtx false mode fQ1 (tc && os.isEmpty) st o).1 hos
-        (fun s hs => hv s (by simp [hs])) (fun hm s hs => hwf hm s (by simp [hs])) (fun d hd => hall d (by simp [hd]))
+        (by rw [frameStep_silkUseDtx]; exact hsd) (fun hm s hs => hwf hm s (by simp [hs])) (fun d hd => hall d (by simp [hd]))
       simp only at this
       obtain ⟨h1, _, h3, h4, h5, h6⟩ := this
       refine ⟨h1, hB.2.2.1, ?_, h4, h5, h6⟩
@@ -335,7 +317,7 @@ theorem inDtx_silk (c : Cfg) (st : St) (hs : st.silkUseDtx = true) (hp : st.prev
 
 /-- **The in-DTX query is true after every DTX packet.** -/
 theorem inDtx_of_dtx (c : Cfg) (st : St) (o : CallOr) (hr : Regular c) (hlen : o.subs.length = nSub c o.mode)
-    (hinv : Inv st) (hwf : WF o) (hco : Coherent c o) (n : Nat) (hpkt : (encodeCall c st o).2.1 = .dtx n) :
+    (hinv : Inv st) (hwf : WF o) (n : Nat) (hpkt : (encodeCall c st o).2.1 = .dtx n) :
     inDtx c (encodeCall c st o).1 = true := by
   have hreg := encodeCall_regular c st o hr hlen
   rw [hreg.2] at hpkt
@@ -356,12 +338,12 @@ theorem inDtx_of_dtx (c : Cfg) (st : St) (o : CallOr) (hr : Regular c) (hlen : o
     rw [hs] at hsu
     exact inDtx_generalised c _ hsu this.1 (Nat.le_of_lt this.2)
   · -- SILK's own DTX
+    have hs0 := hs
     rw [prepCall_silkUseDtx] at hs
     simp only [Bool.and_eq_true, Bool.not_eq_true', Bool.or_eq_false_iff] at hs
     obtain ⟨hd, hv0, hsil⟩ := hs
-    have hval := hco hv0 hsil
     rw [hsil] at hall ⊢
-    have hC := frameFlags_silk_regime c.useDtx o.mode (subQ1 c o.mode) o.toCelt (prepCall c st o) o.subs hsne hval hwf.2 hall
+    have hC := frameFlags_silk_regime c.useDtx o.mode (subQ1 c o.mode) o.toCelt (prepCall c st o) o.subs hsne hs0 hwf.2 hall
     simp only at hC
     obtain ⟨hm, hc0, hpm, hsu, h0, h1⟩ := hC
     rw [prepCall_prevMode] at hpm
